@@ -542,8 +542,49 @@ func c19Tracks(c *fw.Ctx, idx int) {
 		c.Count("writer_failures_injected")
 		if err == nil || !errors.Is(err, errInjected) {
 			c.Fail("writer-error-lost", "Encode returned %v although the writer failed after %d of %d bytes", err, p, full.Len())
+			return
+		}
+		// the device comes back and the caller tries again with the same Encoder: what
+		// the second attempt writes is a complete file of its own
+		rw := &retryWriter{failAfter: p}
+		enc := igc.NewEncoder(rw, igc.A("XVF001"))
+		var e1, e2 error
+		if c.Guard("panic", func() {
+			e1 = enc.Encode(ls)
+			rw.failAfter = -1
+			rw.buf.Reset()
+			e2 = enc.Encode(ls)
+		}) {
+			return
+		}
+		c.Eval(2)
+		c.Count("encode_retried_on_the_same_encoder_after_a_writer_error")
+		if e1 == nil || e2 != nil || !bytes.Equal(rw.buf.Bytes(), full.Bytes()) {
+			c.Fail("history-dependent", "Encode on an Encoder whose previous Encode failed (writer error after %d bytes): first err=%v, retry err=%v, the retry wrote %q; a fresh Encoder writes %q", p, e1, e2, clipStr(rw.buf.String(), 200), clipStr(full.String(), 200))
 		}
 	}
+}
+
+// retryWriter fails (with the bytes so far accepted) once failAfter bytes have been
+// taken, until failAfter is set to -1.
+type retryWriter struct {
+	buf       bytes.Buffer
+	failAfter int
+}
+
+func (w *retryWriter) Write(p []byte) (int, error) {
+	if w.failAfter >= 0 {
+		room := w.failAfter - w.buf.Len()
+		if len(p) > room {
+			if room > 0 {
+				w.buf.Write(p[:room])
+			} else {
+				room = 0
+			}
+			return room, errInjected
+		}
+	}
+	return w.buf.Write(p)
 }
 
 var c19Seeds = []string{
